@@ -3,6 +3,7 @@
 
 Line protocol: one JSON command per line on stdin, one JSON reply per line on stdout (per call).
     {"cmd":"call","call":CALL}                    serve one call
+    {"cmd":"forkcall","call":CALL}                serve one call in a child forked from this (so far idle) process
     {"cmd":"gather","calls":[CALL...]}            serve the calls concurrently: asyncio.gather in ONE event loop
     {"cmd":"sites"}                               (with --instrument) dump the iteration sites seen so far
 CALL = {"id":int, "tool":"validate|write|eject|compile|api", "args":{...}, "files":{relpath:text}, "fn":str}
@@ -382,6 +383,11 @@ def api_call(fn, a):
     if fn == "validate_inline":
         # schema given as text (arbitrary POLICY / FIELDS / targets incl. multi-target broadcast), not by name
         sd = extract_schema_from_document(parse(a["schema_content"]))
+        # multi-target broadcast ("A∨B∨C": one routing entry per target, in specification order) cannot be written in a
+        # schema FILE today (the ∨ is lost in reconstruction), only set through the API
+        for fname, spec in (a.get("targets_override") or {}).items():
+            if fname in sd.fields and sd.fields[fname].pattern is not None:
+                sd.fields[fname].pattern.target = spec
         doc = parse(content)
         v = Validator(schema=None)
         errs = v.validate(doc, strict=bool(a.get("strict")), section_schemas={sd.name: sd})
@@ -493,6 +499,31 @@ def main():
             before = snapshot() if SNAP else None
             text = asyncio.run(serve(call, sb))
             out.write(json.dumps(finish(call, sb, text, before)) + "\n")
+        elif cmd["cmd"] == "forkcall":
+            # a fresh process for this call without paying the import time again: fork this process, which has served
+            # nothing (module/class/tool-instance state is exactly the post-import state), let the child serve the call
+            call = cmd["call"]
+            out.flush()
+            r, w = os.pipe()
+            pid = os.fork()
+            if pid == 0:
+                try:
+                    os.close(r)
+                    try:
+                        sb = prepare(call)
+                        text = asyncio.run(serve(call, sb))
+                        data = json.dumps(finish(call, sb, text, None))
+                    except BaseException as e:      # noqa: BLE001 - report, never fall back into the parent's loop
+                        data = json.dumps({"id": call["id"], "out": json.dumps({"__worker_raised__": f"{type(e).__name__}: {e}"}), "files": {}})
+                    with os.fdopen(w, "wb") as f:
+                        f.write(data.encode("utf-8"))
+                finally:
+                    os._exit(0)
+            os.close(w)
+            with os.fdopen(r, "rb") as f:
+                data = f.read()
+            os.waitpid(pid, 0)
+            out.write((data.decode("utf-8") if data else json.dumps({"id": call["id"], "out": json.dumps({"__worker_raised__": "child died"}), "files": {}})) + "\n")
         elif cmd["cmd"] == "gather":
             calls = cmd["calls"]
             sbs = [prepare(c) for c in calls]
